@@ -496,6 +496,23 @@ void scan_deps(const std::string& orig_portname, std::string cur_portname,
         const Port* port = ports.apropos(is_leaf_level
                                          ? cur_portname.c_str()
                                          : (cur_portname + '/').c_str());
+        // a directory can also be enabled from inside: rSelf(..., rEnabledBy(x))
+        // names the port x of the directory's own ports
+        if(!is_leaf_level && port && port->ports)
+        {
+            const Port* self = (*port->ports)["self:"];
+            const char* enabled_by = self ? self->meta()["enabled by"] : NULL;
+            std::string abs = enabled_by ? rel2abs(enabled_by, cur_portname + '/')
+                                         : std::string();
+            if(enabled_by && abs != orig_portname)
+            {
+                auto itr = message_map.find(abs);
+                if(itr != message_map.end())
+                    itr->second->dependees.push_back(std::distance(message_v.data(),(const message_t*)message_map.at(orig_portname)));
+                else
+                    scan_deps(orig_portname, abs, ports, message_map, message_v);
+            }
+        }
         is_leaf_level = false;
         if(port)
         {
